@@ -537,6 +537,12 @@ been initialized
         not_echo_input = OS_IS_UNIX and not echo_input and output.isatty()
         hide_cursor = hide_cursor and output.isatty()
 
+        if not_echo_input:
+            output_fd = output.fileno()
+            old_attr = termios.tcgetattr(output_fd)
+            new_attr = termios.tcgetattr(output_fd)
+            new_attr[3] &= ~termios.ECHO
+
         # Validate size and get render data and args
         render_data: RenderData
         real_render_args: RenderArgs
@@ -549,12 +555,6 @@ been initialized
             check_size=animation or check_size,
             allow_scroll=not animation and allow_scroll,
         )
-
-        if not_echo_input:
-            output_fd = output.fileno()
-            old_attr = termios.tcgetattr(output_fd)
-            new_attr = termios.tcgetattr(output_fd)
-            new_attr[3] &= ~termios.ECHO
         try:
             if hide_cursor:
                 output.write(HIDE_CURSOR)
